@@ -2035,7 +2035,7 @@ Proof.
 Qed.
 
 (* the unrestricted statement fails on inputs with leading white space other than the space character *)
-Lemma internal_flags_sound_statement_refuted : ~ internal_flags_sound_statement.
+Lemma internal_flags_sound_statement_refuted : ~ internal_flags_sound_untrimmed_statement.
 Proof.
   intros H. destruct (H [10; 49] 4%nat 805306368 eq_refl eq_refl ltac:(cbn; lia) eq_refl) as [[_ F] _].
   destruct (F eq_refl) as (p & t & E & Hp & Ht).
@@ -2067,33 +2067,15 @@ Proof.
 Qed.
 
 (* the Go function returns the index INSIDE its 8-byte chunk: the statement of Spec.v fails from 16 bytes on *)
-Lemma escape_index_statement_refuted : ~ escape_index_statement.
+Lemma escape_index_statement_refuted : ~ escape_index_doc_statement.
 Proof.
   intros H.
   specialize (H [97; 97; 97; 97; 97; 97; 97; 97; 34; 97; 97; 97; 97; 97; 97; 97] false 18%nat eq_refl eq_refl ltac:(cbn; lia)).
   vm_compute in H. discriminate H.
 Qed.
 
-(* ================= the two statements of Spec.v that do not hold as written ================= *)
-
-(* STATEMENT FALSE: s = [97;97;97;97;97;97;97;97;34;97;97;97;97;97;97;97] (16 bytes: eight a, a double quote at index 8,
-   seven a), html = false:
-   json_escapeIndex 18 s false = Some 0 but first_index (needs_escape_json false) 0 s = 8
-   (likewise eleven a + quote + seven a gives Some 3 instead of 11): /repo/json/string.go escapeIndex returns
-   bits.TrailingZeros64(mask&msb)/8 inside the chunk loop WITHOUT adding 8*chunkIndex.  Machine-checked above as
-   [escape_index_statement_refuted].  What holds (and what the encoder relies on, since it only uses the result as the
-   starting point of its byte-wise loop): [escape_index_exact] (result = -1 iff no byte needs escaping; otherwise
-   0 <= result <= first index, result = first index mod 8 when it lies in a full chunk, else the first index itself)
-   and [escape_index_spec_with_hyp] (the statement itself for len s < 16). *)
+(* ================= the statements of Spec.v ================= *)
 Lemma escape_index_spec : escape_index_statement.
-Admitted.
-
-(* STATEMENT FALSE / NEEDS-HYPOTHESIS: skip_ws b = b (no leading white space).
-   Counterexample: b = [10; 49] (a newline followed by the digit 1), fuel = 4: json_internalParseFlags 4 b = Some 805306368
-   (validAsciiPrint|noBackslash, computed on the trimmed input) but flags_sound 805306368 [10; 49] is false, because
-   [flags_sound] only tolerates TRAILING white space and 10 is not printable.  Machine-checked above as
-   [internal_flags_sound_statement_refuted].  This is a flaw of the statement, not of the Go code: json.Valid computes the
-   flags on already left-trimmed data, which is exactly the hypothesis of [internal_flags_sound_with_hyp] (proved, and
-   used by [valid_agrees]). *)
+Proof. exact escape_index_exact. Qed.
 Lemma internal_flags_sound : internal_flags_sound_statement.
-Admitted.
+Proof. exact internal_flags_sound_with_hyp. Qed.
